@@ -397,3 +397,142 @@ def run_strflags(prog, rule="R-STRFLAGS"):
     res.counts["element_accesses_to_flag_arrays"] = n_uses
     res.floor("element accesses to the flag arrays", n_uses, 20)
     return res
+
+
+# ------------------------------------------------------------------ R-COPYFIELDS
+RELEASERS = ("free", "clear", "Free", "Clear")
+
+
+def _fill_summary(prog, E):
+    """FILL[g] = set of (parameter k, field path) into which g may store something other than a constant, bottom-up over the call graph.
+    Stores of constants (the NULL / 0 / -1 of initialisers and of ILL_IFFREE) and the effects of external releasing routines are left
+    out, so an init / free routine fills nothing."""
+    from ..effects import K
+    FILL = collections.defaultdict(set)
+    own = {}
+    for f in prog.funcs.values():
+        if f.live is None:
+            continue
+        lst = []
+        for (p, loc, how, b, i) in E.direct[f.key]:
+            e = f.blocks[b]["e"][i]
+            if how == "assign" and e[0] == "A" and e[1][1] == "=" and const_of(e[1][3]) is not None:
+                continue
+            if how.startswith("ext:") and any(w in how for w in RELEASERS):
+                continue
+            lst.append((p, loc, how, b, i))
+            if p[2]:
+                for (k, st) in E.roots(f, p):
+                    if st:
+                        FILL[f.key].add((k, fields_of(st)[:K]))
+        own[f.key] = lst
+    changed, rounds = True, 0
+    while changed and rounds < 40:
+        changed = False
+        rounds += 1
+        for f in prog.funcs.values():
+            if f.live is None:
+                continue
+            wf = FILL[f.key]
+            for (g, name, loc, args, bid, idx, c) in E.callinfo[f.key]:
+                if g is None:
+                    continue
+                for (k, fp) in list(FILL.get(g.key, ())):
+                    if k < len(args):
+                        a = args[k]
+                        if a[2] and a[2][-1] == "&":
+                            a = (a[0], a[1], a[2][:-1])
+                        for (j, steps) in E.roots(f, a):
+                            ent = (j, (fields_of(steps) + fp)[:K])
+                            if ent not in wf:
+                                wf.add(ent)
+                                changed = True
+    return FILL, own
+
+
+def run_fields(prog, E=None, prefix="mpq_", rule="R-COPYFIELDS", floor=15):
+    """sibling agreement of the two routines that build a complete problem: the conversion of a parsed file (ILLrawlpdata_to_lpdata and
+    its callees) and QScopy_prob.  Every field of the problem record that the file route fills with something other than a constant
+    and that the writers read (call-graph closure of QSwrite_prob_file: the observers every problem has) is also filled, for the new
+    problem, by QScopy_prob or one of its callees."""
+    E = E or Effects(prog)
+    res = RuleResult(rule, "every field of the problem record that the file reader's conversion fills and the writers read is also filled for the "
+                           "new problem by QScopy_prob")
+    FILL, own = _fill_summary(prog, E)
+
+    def lpf(fp):
+        return {x.split("::")[1] for x in fp if "ILLlpdata::" in x}
+
+    def expand(f, p, depth=0):
+        kind, root, steps = p
+        yield tuple(steps)
+        if kind == "l" and depth < 5:
+            for o in E.origins[f.key].get(root, []):
+                if len(o) == 3 and (o[0] == "l" or (isinstance(o[0], str) and o[0].startswith("p"))) and not (o[0] == "l" and o[1] == root):
+                    for pre in expand(f, o, depth + 1):
+                        yield tuple(pre) + tuple(steps)
+
+    def closure(root):
+        return [prog.funcs[k] for k in prog.reachable([root.key]) if k in prog.funcs and prog.funcs[k].live is not None]
+    conv = prog.require_fn(prefix + "ILLrawlpdata_to_lpdata")
+    cp = prog.require_fn(prefix + "QScopy_prob")
+    wr = prog.require_fn(prefix + "QSwrite_prob_file")
+    built = collections.defaultdict(set)
+    for f in closure(conv):
+        for (p, loc, how, b, i) in own.get(f.key, ()):
+            for st in expand(f, p):
+                for X in lpf(fields_of(st)):
+                    built[X].add(f.name)
+    def filled_in(f, skip_original):
+        out = set()
+        for (p, loc, how, b, i) in own.get(f.key, ()):
+            for st in expand(f, p):
+                out |= lpf(fields_of(st))
+        for (g, name, loc, args, bid, idx, c) in E.callinfo[f.key]:
+            if g is None:
+                continue
+            for (k, fp) in FILL.get(g.key, ()):
+                if k < len(args):
+                    a = args[k]
+                    if skip_original and isinstance(a[0], str) and a[0] == "p0":
+                        continue                      # the original, not the copy
+                    for st in expand(f, a):
+                        out |= lpf(tuple(fields_of(st)) + tuple(fp))
+        return out
+    copied = filled_in(cp, True)
+    # the routine that creates the new problem (the local the copy is built in originates from its result) fills fields too (the name)
+    roots_written = {p[1] for (p, loc, how, b, i) in own.get(cp.key, ()) if p[0] == "l"}
+    for L in sorted(roots_written):
+        for o in E.origins[cp.key].get(L, []):
+            if o[0] == "call":
+                g = prog.resolve(cp, o[1])
+                if g is not None:
+                    copied |= filled_in(g, False)
+    observed = collections.defaultdict(set)
+    for f in closure(wr):
+        trees = []
+        for b, i, e in f.elements():
+            trees += [x[1] for x in e[1] if x[1] is not None] if e[0] == "D" else ([e[1]] if e[1] is not None else [])
+        for bid in f.live:
+            if f.blocks[bid].get("c") is not None:
+                trees.append(f.blocks[bid]["c"])
+        for t in trees:
+            for nd in walk(t):
+                if isinstance(nd, list) and nd and nd[0] == "m" and "ILLlpdata::" in nd[2]:
+                    observed[nd[2].split("::")[1]].add(f.name)
+    res.counts["fields_filled_by_the_file_route"] = sorted(built)
+    res.counts["fields_read_by_the_writers"] = sorted(observed)
+    res.counts["fields_filled_by_QScopy_prob"] = sorted(copied)
+    both = sorted(set(built) & set(observed))
+    for X in both:
+        res.obligations += 1
+        res.nontrivial += 1
+        if X in copied:
+            res.sample({"field": X, "verdict": "filled by QScopy_prob or a callee"}, limit=40)
+        else:
+            res.violations.append(Violation(rule, "QScopy_prob|%s not copied" % X, cp.name, short_loc(cp.loc),
+                                            "ILLlpdata::%s is filled by the file route (%s) and read by the writers (%s), but neither QScopy_prob nor any of its "
+                                            "callees stores anything but a constant into it for the new problem: the copy of a problem that came from a file is "
+                                            "written differently from its original" % (X, sorted(built[X])[0], sorted(observed[X])[0])))
+    res.floor("fields filled by the file route and read by the writers", len(both), floor)
+    return res
